@@ -45,6 +45,11 @@ theorem wrapU_nat {w n : Nat} (h : n < 2 ^ w) : wrapU w (n : Int) = (n : Int) :=
 theorem band_nat (a b : Nat) : band (a : Int) (b : Int) = ((a &&& b : Nat) : Int) := by
   simp [band]
 
+/-- `x & y` where both operands are shown (by `omega`, whatever their syntactic shape) to be naturals -/
+theorem band_congr_nat {x y : Int} (a b : Nat) (hx : x = (a : Int)) (hy : y = (b : Int)) :
+    band x y = ((a &&& b : Nat) : Int) := by
+  subst hx hy; exact band_nat a b
+
 theorem bor_nat (a b : Nat) : bor (a : Int) (b : Int) = ((a ||| b : Nat) : Int) := by
   simp [bor]
 
